@@ -143,11 +143,39 @@ pub fn judge(st: &mut Stats, job: &Job) {
         }
         Job::Gadget(q, depth, minw, maxw, denom, seed) => {
             let b = |s: u64| { arm(); Circuit::random_pauli_gadget().seed(s).qubits(*q).depth(*depth).min_weight(*minw).max_weight(*maxw).phase_denom(*denom).build() };
-            match guarded(|| (b(*seed), b(*seed))) {
+            // builder histories: the same parameters given through other setter orders, through the public fields, and on
+            // a builder that held other parameters before: same seed and parameters => the same circuit
+            let histories = |s: u64| -> Vec<(&'static str, Circuit)> {
+                let mut v = vec![];
+                arm();
+                v.push(("max-then-min", Circuit::random_pauli_gadget().seed(s).qubits(*q).depth(*depth).max_weight(*maxw).min_weight(*minw).phase_denom(*denom).build()));
+                arm();
+                let mut bld = Circuit::random_pauli_gadget();
+                bld.seed(s);
+                bld.qubits = *q;
+                bld.depth = *depth;
+                bld.min_weight = *minw;
+                bld.max_weight = *maxw;
+                bld.phase_denom = *denom;
+                v.push(("public-fields", bld.build()));
+                arm();
+                let mut bld = Circuit::random_pauli_gadget();
+                bld.qubits(*q + 3).depth(1).min_weight(*q + 1).max_weight(*q + 2).phase_denom(7);
+                bld.seed(s).qubits(*q).depth(*depth).max_weight(*maxw).min_weight(*minw).phase_denom(*denom);
+                v.push(("re-used-builder", bld.build()));
+                if minw == maxw {
+                    arm();
+                    v.push(("weight()", Circuit::random_pauli_gadget().seed(s).qubits(*q).depth(*depth).weight(*minw).phase_denom(*denom).build()));
+                }
+                v
+            };
+            match guarded(|| (b(*seed), b(*seed), histories(*seed))) {
                 Err(p) => st.violation(Violation { sig: format!("gadget|panic|{}", p.rsplit(" @ ").next().unwrap_or("")), detail: p, witness: wit() }),
-                Ok((c1, c2)) => {
+                Ok((c1, c2, hs)) => {
                     let mut bad: Option<String> = None;
-                    if c1 != c2 {
+                    if let Some((name, _)) = hs.iter().find(|(_, c)| *c != c1) {
+                        bad = Some(format!("builder-history|{}", name));
+                    } else if c1 != c2 {
                         bad = Some("not-reproducible".into());
                     } else if c1.num_qubits() != *q || c1.num_gates_of_type(ParityPhase) != *depth {
                         bad = Some("shape".into());
